@@ -83,7 +83,18 @@ impl std::fmt::Display for IErr {
         write!(f, "inner error code={} serial={}", self.code, self.serial)
     }
 }
-impl std::error::Error for IErr {}
+/// an error of code 2 is caused by a (connection-like) error of code 1: predicates must judge the error they
+/// are given, not its causes
+static CAUSE: IErr = IErr { code: 1, serial: 0 };
+impl std::error::Error for IErr {
+    fn source(&self) -> Option<&(dyn std::error::Error + 'static)> {
+        if self.code == 2 {
+            Some(&CAUSE)
+        } else {
+            None
+        }
+    }
+}
 
 /// Normalised outcome of a caller future.
 #[derive(Clone, Debug)]
